@@ -178,10 +178,10 @@ func (b *atxHeadingParser) Close(node ast.Node, reader text.Reader, pc Context) 
 
 	if b.AutoHeadingID {
 		id, ok := node.AttributeString("id")
-		if !ok {
-			generateAutoHeadingID(node.(*ast.Heading), reader, pc)
+		if bs, isBytes := id.([]byte); ok && isBytes {
+			pc.IDs().Put(bs)
 		} else {
-			pc.IDs().Put(id.([]byte))
+			generateAutoHeadingID(node.(*ast.Heading), reader, pc)
 		}
 	}
 }
